@@ -1,7 +1,19 @@
 import Driver.Common
 import Sourmash.Spec.Sample
+import Sourmash.Spec.SampleBulk
+import Sourmash.Model.Murmur
 /-! C01 driver.  model column: observation of the executable sketch model (`MH.Vec` / `MH.Tree`) after
-the op; spec column: observation of the abstract sample (`Sample.St`) after the same op. -/
+the op; spec column: observation of the abstract sample (`Sample.St`) after the same op.
+
+Bulk entry points (`addh addmany addab addword csetab`, and the `c…` spellings of the C API, which
+are answered as the native op): model column = the model's own bulk function (`vecStepB` /
+`treeStepB`: `Vec.addMany`, `Vec.addManyAbund`, `Vec.setAbundances`, …), spec column = the FOLD of the
+abstract single steps over the expansion of the bulk step (`St.stepB`, `Spec/SampleBulk.lean`).
+`addfrom` / `rmfrom`: `Vec.addFrom` / `Vec.removeFrom` against `St.addFrom` / `St.removeFrom`.
+Observers (`md5 eq clone ser reload`): the model goes through `md5sum` / `clone` / `eq` / `serde`
+(filling the digest cache as the code does), the abstract sample is left alone; `md5` also answers
+the digest (model: the cached or computed one; spec: MD5 of ksize and the sample's keys), `eq` the
+verdict (spec: the two samples have the same keys). -/
 open Driver Sample
 
 inductive Sk
@@ -55,6 +67,66 @@ def parseOp (op : String) (args : List String) : Option Op :=
   | "clear", [] => some .clear
   | _, _ => none
 
+def parsePairs (s : String) : List (Nat × Nat) :=
+  if s == "-" || s == "" then [] else
+  (s.splitOn ",").filterMap (fun w => match w.splitOn ":" with
+    | [h, a] => some (h.toNat!, a.toNat!)
+    | _ => none)
+
+/-- every entry point as a (bulk) step -/
+def parseBOp (op : String) (args : List String) : Option BOp :=
+  match op, args with
+  | "addh", [h] => some (.addMany [h.toNat!])
+  | "addmany", [hs] => some (.addMany (natList hs))
+  | "addab", [ps] => some (.addManyAbund (parsePairs ps))
+  | "addword", [w] => some (.addMany [(Murmur.hash64 (unhex w) 42).toNat])
+  | "csetab", [c, ps] => some (.setAbund (parsePairs ps) (c == "1"))
+  | "ser", [] => some .observe
+  | _, _ => (parseOp op args).map .one
+
+/-- the native op behind a C-API spelling -/
+def capiOf (op : String) : String :=
+  if ["cadd", "caddh", "crm", "crmmany", "cclear", "cmerge", "caddfrom", "crmfrom", "caddmany"].contains op
+  then (op.drop 1).toString else op
+
+def Sk.applyB (s : Sk) (o : BOp) : Option Sk :=
+  match s, o with
+  | .v s, o => some (.v (vecStepB s o))
+  | .t _, .one (.set _ _) => none
+  | .t _, .setAbund _ _ => none
+  | .t s, o => some (.t (treeStepB s o))
+
+def Sk.addFrom : Sk → Sk → Option Sk
+  | .v s, .v o => some (.v (s.addFrom o))
+  | .t s, .t o => some (.t (s.addFrom o))
+  | _, _ => none
+
+def Sk.removeFrom : Sk → Sk → Option Sk
+  | .v s, .v o => some (.v (s.removeFrom o))
+  | .t s, .t o => some (.t (s.removeMany o.mins))
+  | _, _ => none
+
+/-- `md5sum()`: the digest and the sketch with its cache filled -/
+def Sk.md5 : Sk → MH.Digest × Sk
+  | .v s => (s.md5sum.1, .v s.md5sum.2)
+  | .t s => (s.md5sum.1, .t s.md5sum.2)
+
+/-- `self == other` (both caches filled) -/
+def Sk.eqv : Sk → Sk → Option (Bool × Sk × Sk)
+  | .v s, .v o => let r := s.eq o; some (r.1, .v r.2.1, .v r.2.2)
+  | .t s, .t o => let r := s.eq o; some (r.1, .t r.2.1, .t r.2.2)
+  | _, _ => none
+
+/-- `Clone`: (the copy, the original with its cache filled) -/
+def Sk.cloned : Sk → Sk × Sk
+  | .v s => (.v s.clone.1, .v s.clone.2)
+  | .t s => (.t s.clone.1, .t s.clone.2)
+
+/-- `from_str(to_string(self))` -/
+def Sk.reload : Sk → Sk
+  | .v s => .v s.serde.1
+  | .t s => .t s.serde.1
+
 def stepC01 (s : DSt) (ws : List String) : DSt × Resp :=
   match ws with
   | "case" :: _ :: ty :: rest =>
@@ -70,18 +142,38 @@ def stepC01 (s : DSt) (ws : List String) : DSt × Resp :=
     let (onOther, op) := match w.splitOn "." with
       | ["o", op] => (true, op)
       | _ => (false, w)
+    let isCapi := capiOf op != op || op == "csetab"
+    let op := capiOf op
     let (tgt, src, stgt, ssrc) := if onOther then (s.other, s.main, s.sother, s.smain) else (s.main, s.other, s.smain, s.sother)
-    let res : Option (Sk × St) :=
-      if op == "merge" && args.isEmpty then
-        (tgt.merge src).map (fun t => (t, stgt.merge ssrc))
-      else match parseOp op args with
-        | some o => (tgt.apply o).map (fun t => (t, stgt.step s.kind o))
+    -- the C API knows the vector type only
+    if isCapi && s.kind == .tree then (s, { model := "bad-op" }) else
+    -- result: new target, new operand (observers fill its cache), new abstract target, answer prefixes
+    let res : Option (Sk × Sk × St × String × String) :=
+      if !args.isEmpty then
+        match parseBOp op args with
+        | some o => (tgt.applyB o).map (fun t => (t, src, stgt.stepB s.kind o, "", ""))
+        | none => none
+      else if op == "merge" then (tgt.merge src).map (fun t => (t, src, stgt.merge ssrc, "", ""))
+      else if op == "addfrom" then (tgt.addFrom src).map (fun t => (t, src, stgt.addFrom s.kind ssrc, "", ""))
+      else if op == "rmfrom" then (tgt.removeFrom src).map (fun t => (t, src, stgt.removeFrom ssrc, "", ""))
+      else if op == "md5" then
+        let (d, t) := tgt.md5
+        some (t, src, stgt, "md5=" ++ Md5.hex d ++ " ", "md5=" ++ Md5.hex (Md5.digest 21 (keys stgt.m)) ++ " ")
+      else if op == "eq" then
+        (tgt.eqv src).map (fun (b, t, o) =>
+          (t, o, stgt, if b then "eq=1 " else "eq=0 ", if keys stgt.m == keys ssrc.m then "eq=1 " else "eq=0 "))
+      else if op == "clone" then
+        let (c, o) := src.cloned
+        some (c, o, ssrc, "", "")
+      else if op == "reload" then some (tgt.reload, src, stgt, "", "")
+      else match parseBOp op args with
+        | some o => (tgt.applyB o).map (fun t => (t, src, stgt.stepB s.kind o, "", ""))
         | none => none
     match res with
     | none => (s, { model := "bad-op" })
-    | some (t, st) =>
-      let s' := if onOther then { s with other := t, sother := st } else { s with main := t, smain := st }
-      (s', { model := showObs t.obs, spec := showObs st.obs })
+    | some (t, o, st, pm, ps) =>
+      let s' := if onOther then { s with other := t, main := o, sother := st } else { s with main := t, other := o, smain := st }
+      (s', { model := pm ++ showObs t.obs, spec := ps ++ showObs st.obs })
   | _ => (s, { model := "bad-op" })
 
 def main : IO Unit := Driver.run ({} : DSt) stepC01
